@@ -15,7 +15,7 @@ from .c01 import shape_sig, compare_channels
 
 PROP = 'C15'
 LEVEL = 'exploration'
-N = {'quick': 40000, 'thorough': 1500000}
+N = {'quick': 28000, 'thorough': 1500000}
 EXPECTED_PROBES = ['daqmx-world']
 RULE = ('seeded worlds (all 17 types, strings, raw and converted timestamps, every property type, header '
         'inheritance across byte-order changes, DAQmx scaler records when the generator emits DAQmx worlds) '
